@@ -372,7 +372,7 @@ def step (s : S) (line : String) : S × String :=
           | some l => dlist l | none => "loop"
         let (tr, tpr, _) := eRenumber t (some (eTaxaParents t))
         let valid := wellFormedB n st.nodes.reverse && st.nodes.all fun nd => !(nd.l < 0.0) && !(nd.r < 0.0)
-        (s, s!"ok vu={vuName (eVerifyUltrametric t cmp)} dm={dm} dmsym=1 cs={nlist (eCladesizes t).toList} cmpself={st3 (eCompare t t)} cmp={st3 (eCompare t t2)} rn=ok left={ilist tr.left.toList} right={ilist tr.right.toList} parent={ilist tr.parent.toList} ld={dlist tr.ld.toList} rd={dlist tr.rd.toList} tp={ilist ((tpr.getD #[]).toList)} valid={if valid then 1 else 0} vu2={vuName (eVerifyUltrametric tr cmp)} cmp2={st3 (eCompare t2 tr)}")
+        (s, s!"ok vu={vuName (eVerifyUltrametric t cmp)} dm={dm} dmsym=1 cs={nlist (eCladesizes t).toList} cmpself={st3 (eCompare t t)} cmp={st3 (eCompare t t2)} rn=ok left={ilist tr.left.toList} right={ilist tr.right.toList} parent={ilist tr.parent.toList} ld={dlist tr.ld.toList} rd={dlist tr.rd.toList} tp={ilist ((tpr.getD #[]).toList)} valid={if valid then 1 else 0} vu2={vuName (eVerifyUltrametric tr cmp)} cmp2={st3 (eCompare t2 tr)} l2={ilist t2.left.toList} r2={ilist t2.right.toList}")
       | _, _ => (s, "bad-op")
     | _, _ => (s, "bad-op")
   | "simulate" :: _ =>
